@@ -277,6 +277,25 @@ Proof.
     intros a b Hab. apply run_pairs_le_last in Hab. lia.
 Qed.
 
+(* ---------- runTransform absent ---------- *)
+(* an export may omit runTransform only when every run transform is the identity; then
+   the imported relation entry equals the exported one iff the importer honours the
+   back-side bit (or the bit is clear) *)
+Lemma import_rel_absent : forall honours identity r,
+  rXform r = identity -> (honours = true \/ rFlags r mod 2 = 0) ->
+  import_rel honours false identity r = r.
+Proof.
+  intros honours identity [o x f] Hx Hb. cbn in *. subst x. unfold import_rel, import_flags, import_xform. cbn.
+  destruct Hb as [-> | Hb]; [reflexivity|]. destruct honours; [reflexivity|]. cbn. rewrite Hb, Z.sub_0_r. reflexivity.
+Qed.
+
+Lemma import_rel_present : forall honours identity r, import_rel honours true identity r = r.
+Proof. intros honours identity [o x f]. reflexivity. Qed.
+
+Lemma import_rel_absent_refuted :
+  import_rel false false 0 (mkRel 5 0 1) <> mkRel 5 0 1 /\ import_rel false false 0 (mkRel 5 0 3) = mkRel 5 0 2.
+Proof. split; [vm_compute; discriminate | vm_compute; reflexivity]. Qed.
+
 (* ---------- merge vectors ---------- *)
 (* invariant of the duplication loop *)
 Definition dinv (st : dstate) : Prop :=
